@@ -25,7 +25,7 @@ func init() {
 		Modules: []string{""},
 		Explanation: "Table/exhaustiveness rules on commentparser/language (relations read by constant propagation over the table functions, not executed) and path/typestate rules on the lexer: (R18.1) every comment style that has a delimiter row is returned by commentStyle for some language, and every language style has some delimiter; " +
 			"(R18.2) for all 47 languages a multi-line start delimiter exists iff an end delimiter exists; (R18.3) singleLineComment and multiLineComment consult the same fallback languages; (R18.4) consumption typestate on lex: no rune is consumed right after a delimiter was consumed without being examined; " +
-			"(R18.5) every cycle of lex and match passes a consuming call; (R18.6) the ChunkIterator goroutine closes its channel on all paths and is the only sender; (R18.7) raw (backquote) strings have no escape character; (R18.8) the text that is lexed is the input itself plus at most a terminating newline (so line numbers are those of the file); (R18.9) the contents of a string literal are recorded as a comment only behind a successful match of a triple quote; (R18.10) every rune consumed in the loop that collects a doc string is added to its text. " +
+			"(R18.5) every cycle of lex and match passes a consuming call; (R18.6) the ChunkIterator goroutine closes its channel on all paths and is the only sender; (R18.7) raw (backquote) strings have no escape character; (R18.8) the text that is lexed is the input itself plus at most a terminating newline (so line numbers are those of the file); (R18.9) the contents of a string literal are recorded as a comment only behind a successful match of a triple quote; (R18.11) after an escape character is consumed the next rune is consumed before any delimiter match; (R18.10) every rune consumed in the loop that collects a doc string is added to its text. " +
 			"Necessary conditions of agreeing with a reference lexer; agreement on all strings and the chunk grouping arithmetic are not decided. Boolean flags that record how a loop was left are followed path-sensitively. R18.4 failed on the pinned tree at four (read, origin) pairs (D8a, D8b), repaired since.",
 		Run: runC18,
 	})
@@ -535,6 +535,75 @@ func checkDocStringFlag(c *Ctx, p *core.Prog, fns []*ssa.Function, cfg eng.LexCo
 	}
 	c.R.Count("R18.9:flag-guarded comment literals", n)
 
+	// R18.11: the rune after an escape character is part of the string whatever it is: once the escape has been consumed,
+	// the next rune is consumed too before any delimiter is looked for (no match call can see an escaped quote).
+	for _, f := range fns {
+		for _, rc := range core.CallsIn(f) {
+			if rc.Common().StaticCallee() != cfg.Read {
+				continue
+			}
+			esc := false
+			for _, fct := range core.FactsAtInstr(rc) {
+				if cmp, ok := fct.AsCmp(); ok && cmp.Op == token.EQL {
+					if k, isK := core.ConstInt(cmp.Y); isK && k == '\\' {
+						esc = true
+					}
+				}
+			}
+			if !esc {
+				continue
+			}
+			// forward search from the escape read to the next consuming or matching primitive
+			type pos struct {
+				b *ssa.BasicBlock
+				i int
+			}
+			start := -1
+			for i, in := range rc.Block().Instrs {
+				if in == ssa.Instruction(rc.(ssa.Instruction)) {
+					start = i + 1
+				}
+			}
+			seen := map[*ssa.BasicBlock]bool{}
+			work := []pos{{rc.Block(), start}}
+			bad := ""
+			for len(work) > 0 && bad == "" {
+				w := work[len(work)-1]
+				work = work[:len(work)-1]
+				stop := false
+				for _, in := range w.b.Instrs[w.i:] {
+					call, ok := in.(ssa.CallInstruction)
+					if !ok {
+						continue
+					}
+					cal := call.Common().StaticCallee()
+					switch {
+					case cal == nil:
+					case cal == cfg.Read || cal == cfg.Unread:
+						stop = true
+					case fnIn(cfg.MatchLike, cal):
+						bad = p.Pos(call.Pos())
+						stop = true
+					}
+					if stop {
+						break
+					}
+				}
+				if stop {
+					continue
+				}
+				for _, sc := range w.b.Succs {
+					if !seen[sc] {
+						seen[sc] = true
+						work = append(work, pos{sc, 0})
+					}
+				}
+			}
+			c.R.Check(bad == "", "R18.11", "lex: after an escape character the next rune is consumed before a delimiter is looked for", p.Pos(rc.Pos()), "every path from the escape read reaches a read before any match",
+				"a path from the read of the escape character reaches a delimiter match (at "+bad+") before the escaped rune was consumed: an escaped quote closes the string, so comment markers inside the literal are reported and real comments behind it are swallowed")
+		}
+	}
+
 	// R18.10: the text of a doc string is what stands between the quotes: in the loop that collects it, every rune that
 	// is consumed is also written to the collecting buffer (no rune - e.g. the backslash of an escape - is eaten).
 	for _, f := range fns {
@@ -591,4 +660,13 @@ func checkDocStringFlag(c *Ctx, p *core.Prog, fns []*ssa.Function, cfg eng.LexCo
 				"a rune is consumed in the collecting loop without being written to the doc string's text (at "+eaten+"): the reported text is not the text between the quotes (backslashes are lost)")
 		}
 	}
+}
+
+func fnIn(l []*ssa.Function, f *ssa.Function) bool {
+	for _, x := range l {
+		if x == f {
+			return true
+		}
+	}
+	return false
 }
